@@ -121,6 +121,13 @@ func plans(prop, tier string) []drv.Plan {
 			add(1, 0, 2, mode, "normal", "closeearly", b)
 			add(1, 0, 1, mode, "normal", "noclose", b)
 		}
+		// Close called again on a closed writer (sequentially, or after a Close that raced with the Writes)
+		for _, s := range []shape{{1, 1, 1}, {1, 0, 1}, {2, 1, 2}} {
+			for _, mode := range []string{"waiter", "poller"} {
+				add(s.P, s.W, s.N, mode, "normal", "close2", b)
+				add(s.P, s.W, s.N, mode, "normal", "closerace", b)
+			}
+		}
 		// Close racing with the Writes: it must still return, and no producer may block
 		for _, s := range []shape{{1, 1, 1}, {1, 2, 2}, {2, 1, 2}, {1, 2, 1}} {
 			for _, mode := range []string{"waiter", "poller"} {
